@@ -393,14 +393,17 @@ fn force(cfg: &'static Cfg, ld: &Arc<Loaded>, cap: usize, bps: &[usize], cmds: &
     // clean-up: open the gates, drain whatever channel the parsing thread may be blocked on
     with_gate(|g| { g.free = true; g.abandon = true; });
     CV.notify_all();
-    let deadline = Instant::now() + Duration::from_millis(5000);
+    // after an observed HANG (both real threads blocked for good: controller in join, parsing thread parked) nothing can
+    // finish the controller; the two threads are left behind (a new epoch ignores them) and the case is not a time-out
+    let hang = status == "HANG";
+    let deadline = Instant::now() + Duration::from_millis(if hang { 600 } else { 5000 });
     while !*sh.cleaned.lock().unwrap() && Instant::now() < deadline {
         if let Ok(slot) = sh.rx.try_lock() { if let Some(rx) = slot.as_ref() { while rx.try_recv().is_ok() {} } }
         wait_until(1, |_| false);
     }
     let stuck = !*sh.cleaned.lock().unwrap();
     if !stuck { let _ = th.join(); }
-    let timed_out = timed_out || stuck; // a controller that cannot even clean up counts against the budget
+    let timed_out = timed_out || (stuck && !hang); // a controller that cannot even clean up counts against the budget
     if std::env::var("C17_TIME").is_ok() { eprintln!("schedule {:?} status {:?} cleanup {:?} steps {}", t_sched, t_status - t_sched, t_case.elapsed() - t_status, sched.len()); }
     let obs = sh.obs.lock().unwrap().join(",");
     (format!("{}|{}|{}", trace.join(" "), obs, status), timed_out)
